@@ -11,7 +11,7 @@ def prop( pid, rules, decides, not_decided, technique, thorough_rules=(), assump
                        assumptions=list( assumptions ))
 
 
-prop( 'C05', [ 'S-STATUS', 'D-VALIDATE', 'W-ATTR', 'T-ALLOWED', 'T-TYPENAMES', 'K-KEYPASS' ],
+prop( 'C05', [ 'S-STATUS', 'D-VALIDATE', 'W-ATTR', 'T-ALLOWED', 'T-TYPENAMES', 'K-KEYPASS', 'G-INIT' ],
       decides='S-STATUS: typestate of data.status over the statement CFG of every CIP request handler - at every statement inside '
               'the try that may raise, the status is a known non-success constant (so a refused request is answered with a failure), '
               'the handler never re-raises or resets it, and at the named program points of Logix.request the codes are 0x05 (resolve/lookup), '
@@ -23,17 +23,17 @@ prop( 'C05', [ 'S-STATUS', 'D-VALIDATE', 'W-ATTR', 'T-ALLOWED', 'T-TYPENAMES', '
               'functions that can mutate an Attribute is reachable only for write services (service feasibility by folding the '
               'dispatch tests).  T-ALLOWED: every cell of the Logix write type-compatibility table admits only request types whose whole value '
               'range is contained in the tag type\'s range (interval containment over the struct formats), so an acknowledged '
-              'write can always be re-encoded by the tag\'s type.  D-VALIDATE also: the element-count default is selected by presence ( .get( \'elements\', default )), never by truthiness.  T-TYPENAMES: each configurable tag type\'s default is the zero of the Python type its format packs (assignments are coerced with type( default )).  K-KEYPASS as for C03.',
+              'write can always be re-encoded by the tag\'s type.  D-VALIDATE also: the element-count default is selected by presence ( .get( \'elements\', default )), never by truthiness.  T-TYPENAMES: each configurable tag type\'s default is the zero of the Python type its format packs (assignments are coerced with type( default )).  K-KEYPASS as for C03.  G-INIT: every move_if accumulator of the (class-level, shared) parsers is created per parse - no mutable literal initializer, so a refused request cannot leak items into a later accepted one.',
       not_decided='that values read back equal the converted values written (value/history dependent).',
       technique='constant typestate on a statement CFG with exception edges; dominance / must-pass-through with correlated branches; service feasibility by test folding; table interval containment' )
 
-prop( 'C12', [ 'T-CLIENT-TYPES', 'P-BUNDLE', 'P-FRESH', 'T-PATHSYNTAX', 'S-COMPLETE', 'T-OPOFFSET' ],
+prop( 'C12', [ 'T-CLIENT-TYPES', 'P-BUNDLE', 'P-FRESH', 'T-PATHSYNTAX', 'S-COMPLETE', 'T-OPOFFSET', 'T-PATHDEFAULTS', 'F-CLIENT' ],
       decides='P-BUNDLE: in connector.issue the keep-collecting condition conjoins the size test with equality of both route_path and '
               'send_path with those of the bundle, every yielded record carries ( index, sender_context ) of its wire request, sender_context is '
               'always derived from index, and index advances at most once per operation and after every flushed bundle; T-PATHSYNTAX: every '
               'delimiter format_path emits (@ / [ - ] . 0x) is recognised by parse_path/parse_path_elements/parse_path_component/parse_int; '
               'S-COMPLETE: both harvesting drivers compare issued vs harvested counts before completing; T-CLIENT-TYPES: every client.CIP_TYPES row takes (tag_type, size) from the parser class of its own name and its '
-              'integer validator accepts only values the class\'s struct format encodes.  T-OPOFFSET: parse_operations stores a byte offset iff the operation text has a non-empty \'+<number>\' part (presence of the text, so \'+0\' is kept).',
+              'integer validator accepts only values the class\'s struct format encodes.  T-OPOFFSET: parse_operations stores a byte offset iff the operation text has a non-empty \'+<number>\' part (presence of the text, so \'+0\' is kept).  T-PATHDEFAULTS: parse_path_elements forwards the caller\'s default element / count to the last component unchanged (no re-binding of those parameters before the call).',
       not_decided='equality of result sequences across depth/bundling settings (dynamic).',
       technique='table extraction from AST + interval containment; guard-shape checks' )
 
@@ -76,7 +76,7 @@ prop( 'C03', [ 'W-ATTR', 'D-VALIDATE', 'R-SNAPSHOT', 'D-TYPE', 'T-TYPENAMES', 'T
       not_decided='read-your-writes over request histories, slice index arithmetic, symbolic-name resolution, per-element isolation (value/history dependent).',
       technique='who-may-write analysis via service feasibility on the CFG; AST shape checks; table checks' )
 
-prop( 'C06', [ 'X-SERVICES', 'P-REPLYBIT', 'P-ONE', 'P-PROCEED', 'D-ECHO', 'S-STATUS', 'P-ROUTE', 'E-REPLY' ],
+prop( 'C06', [ 'X-SERVICES', 'P-REPLYBIT', 'P-ONE', 'P-PROCEED', 'D-ECHO', 'S-STATUS', 'P-ROUTE', 'E-REPLY', 'T-CONTEXT' ],
       decides='X-SERVICES: for Object, Message_Router, Connection_Manager and Logix the registered service parsers, the services '
               'request() dispatches and the services produce() encodes agree, and every *_RPY constant is *_REQ | 0x80; '
               'P-REPLYBIT: on every path of every handler to the reply producer the reply bit is set at most once, exactly once on '
@@ -134,7 +134,7 @@ prop( 'C18', [ 'T-RECORD', 'H-PARSE', 'H-FILES', 'H-NATURAL', 'H-OPENER', 'H-PAC
       technique='writer/reader field-table agreement (AST patterns); forward data-flow and path counting over a statement CFG of '
                 'parse_record / reader.open / loader.load; typestate (finite abstract-state sets to a fixpoint) for the strict flag; decision-table evaluation of the file-selection predicates; state-table exhaustiveness' )
 
-prop( 'C04', [ 'F-FRAG', 'F-STATUS', 'D-VALIDATE', 'W-ATTR', 'S-EXT' ],
+prop( 'C04', [ 'F-FRAG', 'F-STATUS', 'D-VALIDATE', 'W-ATTR', 'S-EXT', 'F-CLIENT' ],
       decides='the form of the fragment arithmetic, by algebra on a linear normal form and by structure, never by evaluating it on sample '
               'numbers.  F-FRAG (Logix.reply_elements): the byte offset is split into quotient and remainder by the element size '
               '( off // siz, off - q * siz | off % siz | divmod ), siz = attribute.parser.struct_calcsize, the offset is honoured for the '
@@ -148,7 +148,7 @@ prop( 'C04', [ 'F-FRAG', 'F-STATUS', 'D-VALIDATE', 'W-ATTR', 'S-EXT' ],
               'request; a read replies attribute[beg:end]; its status expression, evaluated over the two possible orderings of end and '
               'endactual (end <= endactual by construction) through the non-STRUCT definitions of its locals, is 0x00 iff '
               'end == endactual and 0x06 otherwise; a write stores data[context].data into attribute[beg:end] then status 0x00.  '
-              'D-VALIDATE / W-ATTR: the range assertions of reply_elements and "only the write branch stores" (as for C05).  S-EXT: as for C14 (a non-final fragment reply carries no extended status word).',
+              'D-VALIDATE / W-ATTR: the range assertions of reply_elements and "only the write branch stores" (as for C05).  S-EXT: as for C14 (a non-final fragment reply carries no extended status word).  F-CLIENT: client.read / client.write put the caller\'s elements (or the count spelled in the path) and offset into the request - never a count derived from one fragment\'s data.  F-FRAG also: MAX_BYTES is not shadowed by an instance attribute.',
       not_decided='the end-to-end reassembly (that the concatenation of the fragments of a driven transfer equals the requested elements) '
                   'as a statement about values - only the per-fragment clauses above, each a necessary condition of it; the STRUCT/UDT '
                   'byte-trimming branch (outside the property); client-side offset bookkeeping (the property drives the offsets).',
@@ -191,7 +191,7 @@ prop( 'C02', [ 'G-CHUNK', 'G-FRAME', 'P-ACT', 'P-ONE', 'P-CHAIN', 'R-ISO', 'N-RE
       technique='grammar-graph extraction by abstract interpretation of the builder code + edge-kind analysis; path effect counting and '
                 'must-pass-through on the CFG; AST idiom matching on the framework loops' )
 
-prop( 'C07', [ 'A-OFFSETS', 'P-ORDER', 'P-EACH', 'P-CLOSURE', 'R-LOCK-5', 'R-LOCK-6', 'P-FRESH', 'P-BUNDLE', 'S-RESOLVE', 'D-PATHSTOP', 'S-STATUS' ],
+prop( 'C07', [ 'A-OFFSETS', 'P-ORDER', 'P-EACH', 'P-CLOSURE', 'R-LOCK-5', 'R-LOCK-6', 'P-FRESH', 'P-BUNDLE', 'S-RESOLVE', 'D-PATHSTOP', 'S-STATUS', 'R-STATELESS' ],
       decides='A-OFFSETS: the two offset-table emitters of Message_Router.produce and the two slice bounds of the parser closure '
               'normalise (linear-expression normaliser) to 2 + 2*N relative to the running offset, the count field is the number of '
               'offsets, members are sliced between consecutive offsets (last to the end) and appended in order; P-ORDER: in both produce '
@@ -203,7 +203,7 @@ prop( 'C07', [ 'A-OFFSETS', 'P-ORDER', 'P-EACH', 'P-CLOSURE', 'R-LOCK-5', 'R-LOC
       not_decided='equality of each member\'s reply with its standalone reply, and of the resulting tag state (dynamic).',
       technique='linear normalisation of offset arithmetic; iteration/accumulation idiom pairing; per-iteration effect counting on the CFG' )
 
-prop( 'C08', [ 'G-PROGRESS', 'G-BOUND', 'G-REF', 'R-PROGRESS', 'R-LIMIT', 'E-CONTAIN', 'R-ISO', 'S-STATUS', 'W-ATTR', 'D-VALIDATE', 'T-ALLOWED', 'G-PRIMS' ],
+prop( 'C08', [ 'G-PROGRESS', 'G-BOUND', 'G-REF', 'R-PROGRESS', 'R-LIMIT', 'E-CONTAIN', 'R-ISO', 'S-STATUS', 'W-ATTR', 'D-VALIDATE', 'T-ALLOWED', 'G-PRIMS', 'G-INIT' ],
       decides='termination-shape, containment and no-corruption clauses.  G-PROGRESS: in every extracted grammar level (all 25 registered '
               'service machines and 28 stand-alone machines) there is no cycle of non-consuming states, every data-counted repeat consumes '
               '>= 1 symbol per cycle, every sub-machine has a terminal state; G-BOUND/G-REF: every unbounded consumer lies inside a limit '
@@ -229,7 +229,7 @@ prop( 'C10', [ 'G-BOUND', 'G-REF', 'R-LIMIT', 'R-SENT', 'R-REPEAT', 'G-PRIMS' ],
       technique='reference resolution over extracted grammar graphs; boundedness analysis with a consumption model; AST idiom matching and '
                 'CFG effect counting on the framework' )
 
-prop( 'C09', [ 'R-LOCK-1', 'R-LOCK-6', 'R-LOCK-2', 'R-LOCK-3', 'R-LOCK-4', 'R-LOCK-5', 'R-ISO', 'R-SNAPSHOT', 'P-CLOSURE' ],
+prop( 'C09', [ 'R-LOCK-1', 'R-LOCK-6', 'R-LOCK-2', 'R-LOCK-3', 'R-LOCK-4', 'R-LOCK-5', 'R-ISO', 'R-SNAPSHOT', 'P-CLOSURE', 'G-INIT', 'R-STATELESS' ],
       decides='lock-discipline clauses.  R-LOCK-1: every <m>.run( source=... ) on a state machine outside automata.py happens while <m> is '
               'held by an enclosing `with ... as <m>` (client.__next__\'s self.frame.run is dominated by self.frame.safe() in a class whose '
               '__enter__/__exit__ delegate to the frame) - covers every interleaving of every number of sessions; R-LOCK-2: class-level '
@@ -237,12 +237,12 @@ prop( 'C09', [ 'R-LOCK-1', 'R-LOCK-6', 'R-LOCK-2', 'R-LOCK-3', 'R-LOCK-4', 'R-LO
               'made) only under UCMM.lock; R-LOCK-4: every object construction, setup_tag call and setup.ucmm store of logix.setup is '
               'inside `with setup.lock`; R-LOCK-5: dfa_post keeps closures per thread ident, pops them under the lock and invokes them '
               'outside it, after super().__exit__ released it; dfa_base acquires/releases, run() checks safe(); R-ISO: per-connection '
-              'source/data/machine are locals created per call; R-SNAPSHOT: element ranges are read/written by single list operations.  R-SNAPSHOT also: Logix.request moves the requested range by a single slice load / store on the tag, never in a loop.  R-LOCK-4 also: every return of logix.setup has passed through `with setup.lock` (no unlocked fast path).',
+              'source/data/machine are locals created per call; R-SNAPSHOT: element ranges are read/written by single list operations.  R-SNAPSHOT also: Logix.request moves the requested range by a single slice load / store on the tag, never in a loop.  R-LOCK-4 also: every return of logix.setup has passed through `with setup.lock` (no unlocked fast path).  G-INIT: as for C05 - no parser state shared between sessions through a mutable initializer.  R-STATELESS: the run-time callbacks of the shared parsers\' state classes never store an attribute of self.',
       not_decided='linearizability, absence of lost updates between two writers of the same elements, fairness (properties of histories/schedules).',
       technique='lock-set style who-holds-what rules over call sites (AST + dominance); field-to-lock tables',
       thorough_rules=[] )
 
-prop( 'C13', [ 'S-COMPLETE', 'P-MATCH', 'P-FRESH', 'P-BUNDLE', 'P-DISCARD', 'P-ACT', 'N-RECV', 'P-GATEWAY', 'P-ROUTE' ],
+prop( 'C13', [ 'S-COMPLETE', 'P-MATCH', 'P-FRESH', 'P-BUNDLE', 'P-DISCARD', 'P-ACT', 'N-RECV', 'P-GATEWAY', 'P-ROUTE', 'T-CONTEXT', 'P-POLL' ],
       decides='S-COMPLETE (sibling cross-check): every harvesting driver operate() can return (synchronous, pipeline) compares, after its '
               'harvest loop, a counter fed by the issue stream with a counter fed by the harvested results and raises on a mismatch - so '
               'the client can never silently return fewer results than operations; P-MATCH: in harvest every yield is dominated by an assert '
@@ -252,11 +252,11 @@ prop( 'C13', [ 'S-COMPLETE', 'P-MATCH', 'P-FRESH', 'P-BUNDLE', 'P-DISCARD', 'P-A
               'frame machine is terminal, discards its engine on any framing exception, raises StopIteration only between frames, and '
               '__exit__ refuses a partial frame; P-GATEWAY: proxy.__exit__ discards the gateway on any exception without suppressing it, '
               'close_gateway closes and clears it, open_gateway re-creates it under the lock, and every in-repo reification of a proxy I/O '
-              'generator is lexically inside `with <proxy>:` or a try whose handler closes the gateway.  P-GATEWAY also: a proxy I/O generator is ITERATED (not merely created) inside `with <proxy>:`.',
+              'generator is lexically inside `with <proxy>:` or a try whose handler closes the gateway.  P-GATEWAY also: a proxy I/O generator is ITERATED (not merely created) inside `with <proxy>:`.  T-CONTEXT: format_context / parse_context round-trip every sample context (right padding only), evaluated.  S-COMPLETE also: a request is counted as issued before it is yielded to the harvester.  P-POLL: poll.run delivers values only on the success path of the cycle that polled them (not reachable from the failure handler).',
       not_decided='behaviour at each byte offset of a cut - the rules show that every failure kind has a raising/terminating path, not what the kernel delivers.',
       technique='sibling cross-check of drivers (counter feed analysis); dominance on the CFG; guard-shape matching; call-site protection (lexical with/try)' )
 
-prop( 'C15', [ 'B-ROUTE', 'D-REFUSE', 'C-MAIN', 'S-STATUS', 'T-SEGMENTS', 'P-BUNDLE' ],
+prop( 'C15', [ 'B-ROUTE', 'D-REFUSE', 'C-MAIN', 'S-STATUS', 'T-SEGMENTS', 'P-BUNDLE', 'T-ROUTETEXT' ],
       decides='B-ROUTE: the boolean acceptance expression guarding local dispatch in UCMM.request (including its enclosing '
               '`if self.route_path is not None`) is evaluated on every cell of the finite abstract domain - configured personality in '
               '{None, False, 0, [], one-segment list, two-segment list with an address link} x request route path in {absent, empty, equal, '
@@ -265,11 +265,11 @@ prop( 'C15', [ 'B-ROUTE', 'D-REFUSE', 'C-MAIN', 'S-STATUS', 'T-SEGMENTS', 'P-BUN
               'route_path.segment list; D-REFUSE: with a configured personality the acceptance test dominates the local dispatch '
               '(no tag access when refused) and lies inside the try whose handler stores a non-zero status (S-STATUS); C-MAIN: --simple '
               'yields route_path False, --route-path X yields parse_route_path( X ), default None, and a config-file route path only fills a '
-              'missing run-time one.  T-SEGMENTS: the port / link segment encodings (incl. the 0x0F extended-port escape) produced for a textual route path are the ones the parser decodes.  P-BUNDLE: the client sends every bundle along its own route / send path (paths recorded per bundle, cleared at each flush).',
+              'missing run-time one.  T-SEGMENTS: the port / link segment encodings (incl. the 0x0F extended-port escape) produced for a textual route path are the ones the parser decodes.  P-BUNDLE: the client sends every bundle along its own route / send path (paths recorded per bundle, cleared at each flush).  D-REFUSE also: the request route path is only read before the acceptance test, never passed to a callee that could rewrite it.  T-ROUTETEXT: parse_route_path consumes the components in pairs through one iterator ( islice( it, 2 )), never zip( it, it ), and keeps whatever is not a complete valid pair as the trailer.',
       not_decided='textual route-path parsing (string -> segments) over all strings.',
       technique='exhaustive evaluation of a boolean AST over a finite abstract domain (decision-table check); dominance on the CFG' )
 
-prop( 'C01', [ 'T-TYPES', 'L-AGREE', 'L-DEFAULT', 'L-CODEC', 'T-SEGMENTS', 'T-NCP', 'K-NCPSTATE', 'A-OFFSETS', 'G-FRAME', 'L-SPEC', 'X-SERVICES', 'G-PRIMS' ],
+prop( 'C01', [ 'T-TYPES', 'L-AGREE', 'L-DEFAULT', 'L-CODEC', 'T-SEGMENTS', 'T-NCP', 'K-NCPSTATE', 'A-OFFSETS', 'G-FRAME', 'L-SPEC', 'X-SERVICES', 'G-PRIMS', 'G-INIT', 'K-STALEMEMO' ],
       decides='layout-agreement clauses.  T-TYPES: every CIP scalar class has the spec\'s (type code, width, signedness, little-endian byte order), '
               'TYPE.produce packs and state_struct unpacks with the class format, TYPES_SUPPORTED and the 14-row typed_data dispatch are '
               'consistent; L-AGREE: for each of the 24 registered service machines, every layout variant the producer branch can emit '
@@ -281,14 +281,14 @@ prop( 'C01', [ 'T-TYPES', 'L-AGREE', 'L-DEFAULT', 'L-CODEC', 'T-SEGMENTS', 'T-NC
               'address links, size in words, padded/single variants); T-NCP: Network Connection Parameter encode shifts = decode '
               'shifts/masks = spec bit-fields, Large = +16 bits; A-OFFSETS: bundle offset arithmetic is 2+2N on all four sides; G-FRAME: '
               'the 24-byte encapsulation header; L-SPEC: parser and reply-producer layouts equal the hand-written CIP spec layouts; '
-              'X-SERVICES: registered = dispatched = produced service sets.  L-DEFAULT: in every produce() of the codec modules no numeric field is emitted through a truthiness default (`x or C` with C != 0, `x if x else C`, `if x: ... produce( x )`): 0 is a legal wire value, defaults are selected by presence.  K-NCPSTATE: typestate of defaults.Connection\'s coupled pair ( _NCP, _large ) - no decoding property is read between the stores of the two, and a method that stores one stores both.',
+              'X-SERVICES: registered = dispatched = produced service sets.  L-DEFAULT: in every produce() of the codec modules no numeric field is emitted through a truthiness default (`x or C` with C != 0, `x if x else C`, `if x: ... produce( x )`): 0 is a legal wire value, defaults are selected by presence.  K-NCPSTATE: typestate of defaults.Connection\'s coupled pair ( _NCP, _large ) - no decoding property is read between the stores of the two, and a method that stores one stores both.  G-INIT: move_if accumulators are created per parse.  K-STALEMEMO: no produce() uses the presence of a value it stored into the message itself ( item.input ... ) to skip re-encoding it.',
       not_decided='value-dependent behaviour inside a matching layout (string truncation/NUL fill, float NaN round trip, the is_uerr '
                   'look-ahead ambiguity), and that produced bytes re-parse equal for every value - a dynamic round-trip claim.',
       technique='layout IR extraction from both the grammar-construction code (abstract interpretation) and the produce() ASTs, sequence '
                 'acceptance matching; spec-table comparison; linear normalisation' )
 
 prop( 'C14', [ 'L-SPEC', 'K-FORWARDS', 'L-AGREE', 'L-DEFAULT', 'L-CODEC', 'T-TYPES', 'T-SEGMENTS', 'T-NCP', 'K-NCPSTATE', 'A-OFFSETS', 'G-FRAME',
-               'S-STATUS', 'D-VALIDATE', 'W-ATTR', 'T-ALLOWED', 'T-ATTRKEYS', 'D-TYPE', 'X-SERVICES', 'P-REPLYBIT', 'S-EXT' ],
+               'S-STATUS', 'D-VALIDATE', 'W-ATTR', 'T-ALLOWED', 'T-ATTRKEYS', 'D-TYPE', 'X-SERVICES', 'P-REPLYBIT', 'S-EXT', 'G-INIT', 'K-STALEMEMO', 'F-STATUS', 'F-FRAG' ],
       decides='spec-layout clause.  L-SPEC: for the messages an independent Logix client uses (Register Session, SendRRData/SendUnitData with '
               'null-address/unconnected and connection-id/connected-data items, Unconnected Send, Forward Open small and large, Forward '
               'Close, Read/Write Tag [Fragmented], Multiple Service Packet, Get/Set Attribute, List Identity item) the parser layout '
